@@ -456,6 +456,7 @@ func (c *c05cfg) check(tc *cache.TableCache, st c05state, p *prng.R) []finding {
 	}
 	probes = append(probes, c.randRow(p), c.randRow(p))
 	specs := c.specs()
+	var singles []c05single
 	for pi, pr := range probes {
 		for variant := 0; variant < 3; variant++ {
 			probe := pr.Clone()
@@ -512,6 +513,7 @@ func (c *c05cfg) check(tc *cache.TableCache, st c05state, p *prng.R) []finding {
 				fs = append(fs, finding{"C05/lookup/RowsByModels-error", err.Error()})
 				continue
 			}
+			singles = append(singles, c05single{c.m.NewModel("T", uuid, probe), expect(true)})
 			var gl []string
 			for u, gm := range got {
 				gl = append(gl, u)
@@ -562,6 +564,35 @@ func (c *c05cfg) check(tc *cache.TableCache, st c05state, p *prng.R) []finding {
 					fs = append(fs, finding{fmt.Sprintf("C05/lookup/WhereList/variant%d", variant), fmt.Sprintf("Where(%v uuid=%q).List returns %v, a scan returns %v", probe, uuid, ll, we)})
 				}
 			}
+		}
+	}
+	// several models in one call: the answer is the union of the single answers (models may
+	// resolve through different indexes, to equal or different values)
+	for i := 0; i+1 < len(singles) && i < 24; i++ {
+		j := (i*7 + 3) % len(singles)
+		if j == i {
+			continue
+		}
+		got, err := rc.RowsByModels([]model.Model{singles[i].mdl, singles[j].mdl})
+		if err != nil {
+			fs = append(fs, finding{"C05/lookup/RowsByModels-error", err.Error()})
+			continue
+		}
+		wm := map[string]bool{}
+		for _, u := range append(append([]string{}, singles[i].want...), singles[j].want...) {
+			wm[u] = true
+		}
+		var gl, wl []string
+		for u := range got {
+			gl = append(gl, u)
+		}
+		for u := range wm {
+			wl = append(wl, u)
+		}
+		sort.Strings(gl)
+		sort.Strings(wl)
+		if strings.Join(gl, ",") != strings.Join(wl, ",") {
+			fs = append(fs, finding{"C05/lookup/RowsByModels/two-models", fmt.Sprintf("RowsByModels of two models returns %v, the single look-ups return %v and %v", gl, singles[i].want, singles[j].want)})
 		}
 	}
 	// Read-only look-ups by condition that one or several indexes can serve (== on every
@@ -645,6 +676,11 @@ func (c *c05cfg) check(tc *cache.TableCache, st c05state, p *prng.R) []finding {
 		partitions("/after-read-only-condition-lookups")
 	}
 	return fs
+}
+
+type c05single struct {
+	mdl  model.Model
+	want []string
 }
 
 func contains(l []string, s string) bool {
